@@ -6,13 +6,15 @@ hvars == <<gvars, hist>>
 
 HInit == Init /\ hist = <<>>
 HNext == \/ \E p \in Paths, c \in Contents : AddTmpl(p, c) /\ hist' = Append(hist, <<"add_tmpl", p, c>>)
+         \/ \E p \in ScriptPaths, c \in ScriptContents : AddScript(p, c) /\ hist' = Append(hist, <<"add_script", p, c>>)
          \/ \E p \in Paths : RemoveTmpl(p) /\ hist' = Append(hist, <<"remove_tmpl", p>>)
          \/ SubBegin /\ hist' = Append(hist, <<"sub_begin">>)
          \/ ImportGroup /\ hist' = Append(hist, <<"sub_end_import">>)
 HSpec == HInit /\ [][HNext]_hvars
 
 Final == [p \in DOMAIN tmpls |-> tmpls[p]]
+ScriptSeq == IF DOMAIN scripts = {} THEN <<>> ELSE <<<<"u", scripts["u"]>>>>       \* (one script path in the model)
 HEmit == (~sub.open /\ DOMAIN tmpls # {}) =>
             PrintT(<<"CASE", ToJson([hist |-> hist, final |-> [i \in 1..Len(SortedSeq(DOMAIN tmpls)) |->
-                                        <<SortedSeq(DOMAIN tmpls)[i], tmpls[SortedSeq(DOMAIN tmpls)[i]]>>]])>>)
+                                        <<SortedSeq(DOMAIN tmpls)[i], tmpls[SortedSeq(DOMAIN tmpls)[i]]>>] \o ScriptSeq])>>)
 =============================================================================
